@@ -90,4 +90,18 @@ var propTable = map[string]*propSpec{
 		NotDecided: "the '0 = unlimited' arithmetic of Remove/Merge/atLimit/smallerLimit over uint64 (value-level; a solver or exhaustive argument is a different family); that used never exceeds kill numerically.",
 		Assumptions: []string{"dependency presence is checked on SSA def-use slices (through calls), deliberately not expression shape, so inlining or renaming locals does not fire it; that the dependency is the *right* function of its inputs is not decided"},
 	},
+	"C10": {
+		ID:    "C10",
+		Rules: []string{"R-CLOSE", "R-KILL"},
+		Explanation: "Decides the completeness of the to-be-closed plumbing: every compile-time scope exit (block end, goto/break) passes through a close-stack truncation to the right scope; the compile-time height is maintained only by its owners; 'close' locals and the generic for push a close action; pending close actions disable tail calls; at run time the close stack is cleaned on return, on explicit truncation, around protected calls and when a coroutine ends; a failing handler does not stop the others; declaration and closing agree on which values have a handler; nothing runs handlers after a kill (R-KILL).",
+		NotDecided: "exactly-once and reverse order over all nestings and exits (needs the heights to be right, not merely maintained); the error object passed to handlers.",
+		Assumptions: []string{"anchors (PopContext, EmitJump, emitTruncate, cleanupCloseStack, OpClStack) are resolved by symbol; a rename fails the check rather than passing"},
+	},
+	"C16": {
+		ID:    "C16",
+		Rules: []string{"R-FOR", "R-PRIVREG", "R-SCOPE"},
+		Explanation: "Decides the structural part of 'numeric for loops iterate the manual's sequence and terminate': the three control expressions are held in private registers (evaluated once), the loop variable is a fresh register per iteration copied from the hidden counter, non-numbers and a zero step are errors, and every store to the hidden counter in the advance step depends on a limit comparison and an overflow comparison; the per-iteration scope is popped before the back jump (R-SCOPE).",
+		NotDecided: "that the comparisons compare the right operands in the right direction: the iteration sequence, clipping of float limits and the iteration count are functions of the operand values.",
+		Assumptions: []string{"the numeric-for opcode block is located structurally (the block reading A, B, C and branching on F with three register reads)"},
+	},
 }
